@@ -101,22 +101,35 @@ Definition oneshot_step (s : oneshot) (o : op) : oneshot * out :=
 
 (* --------------------------------------------------------------------- mpsc.rs *)
 
-Record mpsc_inner : Type := mkMI { mi_data : list Z; mi_waker : option nat; mi_closed : bool }.
+Record mpsc_inner : Type :=
+  mkMI { mi_data : list Z; mi_waker : option nat; mi_closed : bool; mi_count : Z (* usize *) }.
 Record mpsc : Type := mkM { m_in : mpsc_inner; m_senders : list hstate; m_recv : bool }.
 
 (* fn mpsc_channel() *)
-Definition mpsc_init : mpsc := mkM (mkMI [] None false) [HLive] true.
+Definition mpsc_init : mpsc := mkM (mkMI [] None false 1) [HLive] true.
 
 (* MpscSender::send *)
 Definition mpsc_send_body (i : mpsc_inner) (v : Z) : mpsc_inner * out :=
   if mi_closed i then (i, mkout RSendErr [])
-  else (mkMI (mi_data i ++ [v]) None (mi_closed i), mkout RUnit (wake (mi_waker i))).
+  else (mkMI (mi_data i ++ [v]) None (mi_closed i) (mi_count i), mkout RUnit (wake (mi_waker i))).
+(* <MpscSender as Clone>::clone: `sender_count += 1` (checked in debug) *)
+Definition mpsc_clone_body (i : mpsc_inner) : option mpsc_inner :=
+  if mi_count i + 1 <=? u64_max
+  then Some (mkMI (mi_data i) (mi_waker i) (mi_closed i) (mi_count i + 1)) else None.
+(* <MpscSender as Drop>::drop: `sender_count -= 1` (checked in debug); the last drop closes
+   the channel and wakes the registered waker *)
+Definition mpsc_drop_body (i : mpsc_inner) : option (mpsc_inner * list nat) :=
+  if 0 <=? mi_count i - 1 then
+    let c := mi_count i - 1 in
+    if c =? 0 then Some (mkMI (mi_data i) None true c, wake (mi_waker i))
+    else Some (mkMI (mi_data i) (mi_waker i) (mi_closed i) c, [])
+  else None.
 (* <MpscReceiverFuture as Future>::poll *)
 Definition mpsc_poll_body (i : mpsc_inner) (w : nat) : mpsc_inner * ret :=
   match mi_data i with
-  | v :: t => (mkMI t (mi_waker i) (mi_closed i), RReady v)
+  | v :: t => (mkMI t (mi_waker i) (mi_closed i) (mi_count i), RReady v)
   | [] => if mi_closed i then (i, RClosed)
-          else (mkMI [] (Some w) (mi_closed i), RPending)
+          else (mkMI [] (Some w) (mi_closed i) (mi_count i), RPending)
   end.
 
 Definition mpsc_step (s : mpsc) (o : op) : mpsc * out :=
@@ -126,14 +139,20 @@ Definition mpsc_step (s : mpsc) (o : op) : mpsc * out :=
       | HLive => let (i, r) := mpsc_send_body (m_in s) v in (mkM i (m_senders s) (m_recv s), r)
       | _ => (s, skip)
       end
-  | Clone h =>                                 (* Arc clone only, no critical section *)
+  | Clone h =>
       match hget (m_senders s) h with
-      | HLive => (mkM (m_in s) (m_senders s ++ [HLive]) (m_recv s), mkout RUnit [])
+      | HLive => match mpsc_clone_body (m_in s) with
+                 | Some i => (mkM i (m_senders s ++ [HLive]) (m_recv s), mkout RUnit [])
+                 | None => (s, mkout RPanic [])
+                 end
       | _ => (s, skip)
       end
-  | DropS h =>                                 (* MpscSender has NO Drop impl: inner untouched *)
+  | DropS h =>
       if undropped (hget (m_senders s) h) then
-        (mkM (m_in s) (hset (m_senders s) h HDead) (m_recv s), mkout RUnit [])
+        match mpsc_drop_body (m_in s) with
+        | Some (i, wk) => (mkM i (hset (m_senders s) h HDead) (m_recv s), mkout RUnit wk)
+        | None => (mkM (m_in s) (hset (m_senders s) h HDead) (m_recv s), mkout RPanic [])
+        end
       else (s, skip)
   | Poll w =>
       if m_recv s then
@@ -247,9 +266,7 @@ Definition pending_notify (tr : list ev) : bool :=
        outstanding and every sender handle has been dropped; else Pending;
      - after every step: a parked receiver is never left asleep while a poll would
        be Ready (no lost wake-up);
-     - no panic.
-   strict = false waives, for mpsc only, the two clauses about disconnection
-   (known finding C34-mpsc-never-closes). *)
+     - no panic. *)
 
 Inductive kind : Type := KOneshot | KMpsc | KNotif.
 
@@ -263,12 +280,10 @@ Definition unpark (p : option nat) (woke : list nat) : option nat :=
   | Some w => if existsb (Nat.eqb w) woke then None else Some w
   | None => None
   end.
-Definition disc_counts (k : kind) (strict : bool) : bool :=
-  match k with KMpsc => strict | _ => true end.
-Definition spec_ready (k : kind) (strict : bool) (s : spec) : bool :=
+Definition spec_ready (s : spec) : bool :=
   match sp_queue s with
   | _ :: _ => true
-  | [] => disc_counts k strict && all_dropped (sp_senders s)
+  | [] => all_dropped (sp_senders s)
   end.
 Definition enabled (k : kind) (s : spec) (o : op) : bool :=
   match o with
@@ -278,9 +293,9 @@ Definition enabled (k : kind) (s : spec) (o : op) : bool :=
   | Poll _ | DropR => sp_recv s
   end.
 (* reject a state in which the receiver sleeps although a poll would be Ready *)
-Definition no_sleeper (k : kind) (strict : bool) (s : spec) : option spec :=
+Definition no_sleeper (s : spec) : option spec :=
   match sp_parked s with
-  | Some _ => if sp_recv s && spec_ready k strict s then None else Some s
+  | Some _ => if sp_recv s && spec_ready s then None else Some s
   | None => Some s
   end.
 Definition ret_eqb (a b : ret) : bool :=
@@ -291,7 +306,7 @@ Definition ret_eqb (a b : ret) : bool :=
   | _, _ => false
   end.
 
-Definition spec_step (k : kind) (strict : bool) (s : spec) (e : ev) : option spec :=
+Definition spec_step (k : kind) (s : spec) (e : ev) : option spec :=
   let (o, r) := e in
   if negb (enabled k s o) then
     match o_ret r, o_woke r with RSkip, [] => Some s | _, _ => None end
@@ -300,18 +315,18 @@ Definition spec_step (k : kind) (strict : bool) (s : spec) (e : ev) : option spe
     match o with
     | Send h v =>
         if ret_eqb (o_ret r) RUnit then
-          no_sleeper k strict
+          no_sleeper
             (mkSpec (enq k (sp_queue s) v)
                     (match k with KOneshot => hset (sp_senders s) h HSent | _ => sp_senders s end)
                     (sp_recv s) p)
         else None
     | Clone h =>
         if ret_eqb (o_ret r) RUnit then
-          no_sleeper k strict (mkSpec (sp_queue s) (sp_senders s ++ [HLive]) (sp_recv s) p)
+          no_sleeper (mkSpec (sp_queue s) (sp_senders s ++ [HLive]) (sp_recv s) p)
         else None
     | DropS h =>
         if ret_eqb (o_ret r) RUnit then
-          no_sleeper k strict (mkSpec (sp_queue s) (hset (sp_senders s) h HDead) (sp_recv s) p)
+          no_sleeper (mkSpec (sp_queue s) (hset (sp_senders s) h HDead) (sp_recv s) p)
         else None
     | DropR =>
         if ret_eqb (o_ret r) RUnit then Some (mkSpec (sp_queue s) (sp_senders s) false None) else None
@@ -323,8 +338,6 @@ Definition spec_step (k : kind) (strict : bool) (s : spec) (e : ev) : option spe
             if all_dropped (sp_senders s) then
               match o_ret r with
               | RClosed => Some (mkSpec [] (sp_senders s) (sp_recv s) None)
-              | RPending => if disc_counts k strict then None
-                            else Some (mkSpec [] (sp_senders s) (sp_recv s) (Some w))
               | _ => None
               end
             else if ret_eqb (o_ret r) RPending
@@ -332,31 +345,11 @@ Definition spec_step (k : kind) (strict : bool) (s : spec) (e : ev) : option spe
         end
     end.
 
-Fixpoint spec_run (k : kind) (strict : bool) (s : spec) (tr : list ev) : option spec :=
+Fixpoint spec_run (k : kind) (s : spec) (tr : list ev) : option spec :=
   match tr with
   | [] => Some s
-  | e :: t => match spec_step k strict s e with Some s' => spec_run k strict s' t | None => None end
+  | e :: t => match spec_step k s e with Some s' => spec_run k s' t | None => None end
   end.
-Definition oracle (k : kind) (strict : bool) (tr : list ev) : bool :=
-  match spec_run k strict spec_init tr with Some _ => true | None => false end.
+Definition oracle (k : kind) (tr : list ev) : bool :=
+  match spec_run k spec_init tr with Some _ => true | None => false end.
 
-(* ------------------------- the failing family of mpsc (no disconnection, ever):
-   a step that OBSERVES disconnection: a poll of the live receiver when every
-   sender handle has been dropped and the queue is empty, or the drop of the last
-   sender handle while the live receiver is parked on an empty queue *)
-Definition is_some {A} (x : option A) : bool := match x with Some _ => true | None => false end.
-Definition is_nil {A} (l : list A) : bool := match l with [] => true | _ => false end.
-Definition mpsc_defect_event (s : mpsc) (o : op) : bool :=
-  match o with
-  | Poll _ => m_recv s && all_dropped (m_senders s) && is_nil (mi_data (m_in s))
-  | DropS h => m_recv s && undropped (hget (m_senders s) h)
-               && all_dropped (hset (m_senders s) h HDead)
-               && is_nil (mi_data (m_in s)) && is_some (mi_waker (m_in s))
-  | _ => false
-  end.
-Fixpoint mpsc_known_from (s : mpsc) (ops : list op) : bool :=
-  match ops with
-  | [] => false
-  | o :: t => mpsc_defect_event s o || mpsc_known_from (fst (mpsc_step s o)) t
-  end.
-Definition mpsc_known_class (ops : list op) : bool := mpsc_known_from mpsc_init ops.
